@@ -25,6 +25,10 @@ class CAT(sp.Function):
         return None
 
 
+# repository helpers that are deliberately kept as black boxes (their bodies are the
+# Biot-Savart kernels; the rules reason about which filaments they are applied to)
+KERNELS = {"_compute_finite_vortex", "_compute_semi_infinite_vortex", "_compute_finite_vortex_deriv1", "_compute_finite_vortex_deriv2", "_compute_semi_infinite_vortex_deriv"}
+SUB = sp.Function("SUB")  # SUB(expr, subscript text): a slice / element of an array-valued expression
 EINSUM = sp.Function("EINSUM")  # uninterpreted contraction EINSUM(spec, A, B)
 SIG = sp.Function("SIG")  # uninterpreted linear reduction over the panel / element axes
 SIGA = sp.Function("SIGA")  # reduction over one named axis: SIGA(expr, axis)
@@ -156,6 +160,39 @@ def lin_expand(e):
         return x.func(*args)
 
     return sp.expand(rw(sp.expand(e)))
+
+
+def refute_constant(e, const, trials=3):
+    """True when e is provably not identically ``const``: the symbols and the
+    outermost applications of uninterpreted functions are treated as independent
+    real unknowns; a point where the value differs refutes the identity (an
+    identity in independent unknowns holds at every point)."""
+    import random
+
+    from sympy.core.function import AppliedUndef
+
+    e = sp.sympify(e)
+    rng = random.Random(20240611)
+    hits = 0
+    for _ in range(trials):
+        atoms = {}
+
+        def rep(x):
+            if isinstance(x, (AppliedUndef, CAT)) or isinstance(x, sp.Symbol):
+                if x not in atoms:
+                    atoms[x] = sp.Float(rng.uniform(0.3, 1.7))
+                return atoms[x]
+            if not x.args:
+                return x
+            return x.func(*[rep(a) for a in x.args])
+
+        try:
+            val = complex(sp.N(rep(e)))
+        except Exception:
+            return False
+        if abs(val - complex(const)) > 1e-6:
+            hits += 1
+    return hits == trials
 
 
 def sdiff(e, s, table, unsig=False):
@@ -360,6 +397,7 @@ class SymX(Domain):
 
     # ---- stores
     def on_store(self, it, obj, v, ev, st):
+        obj.dom["SYMX_ver"] = obj.dom.get("SYMX_ver", 0) + 1
         d = v.dom.get(self.name)
         if d is None:
             d = self.val_expr(it, v, st)
@@ -401,11 +439,14 @@ class SymX(Domain):
         # value numbering: a local whose defining expression is outside the supported
         # fragment becomes an opaque (array) atom, so identities around it can still be
         # compared within the same run
+        if v.dom.get(self.name) is None and v.kind == "num" and v.sym is not None and v.cfg and not v.sym.free_symbols:
+            v.dom[self.name] = sp.nsimplify(v.sym, rational=True)
+            return
         if v.dom.get(self.name) is None and v.kind in ("arr", "num") and v.obj is None and (v.dep or v.cfg):
             ln = getattr(stmt, "lineno", 0)
             # definition site = line, enclosing loop passes, and the chain of call sites of inlined helpers
             site = "".join("c%d" % getattr(fr.callsite, "lineno", 0) for fr in it.frames[1:] if fr.callsite is not None)
-            loops = "".join({"first": "a", "generic": "b", "generic2": "c"}.get(l.tag, "x") for l in it.loops if l.kind != "cfglist")
+            loops = "".join({"first": "a", "generic": "b", "generic2": "c"}.get(l.tag, "x" + str(l.tag).replace("lit", "")) for l in it.loops if l.kind != "cfglist")
             v.dom[self.name] = self.table.get("opq:%s@L%d%s%s%s" % (name, ln, site and ("_" + site), loops and ("_" + loops), self.pass_tag(it).replace("@", "p")), array=(v.kind == "arr"), positive=False)
 
     def on_aug(self, it, op, cur, rhs, res, st):
@@ -455,7 +496,8 @@ class SymX(Domain):
                 # the expression attached to the local's value stale
                 ob = st.heap[v.obj]
                 if ob.dom.get("SYMX_partial") or ob.dom.get("SYMX_idx"):
-                    return None
+                    # an array assembled piecewise: an opaque atom per version of its contents
+                    return self.table.get("opq:obj:%s#%d%s" % (node.id, ob.dom.get("SYMX_ver", 0), self.pass_tag(it).replace("@", "p")), array=True, positive=False)
                 if self.name in ob.dom:
                     return ob.dom[self.name]
             d = v.dom.get(self.name)
@@ -528,8 +570,18 @@ class SymX(Domain):
                 if s in (":", "..."):
                     return base
                 return self.table.get("%s[%s]" % (base.name, s), array=(v.kind != "num"), positive=base.is_positive)
-            if s in ("0", ":", "...", "0,0"):
-                return base if not has_array(base, self.table) or s in (":", "...") else None
+            if isinstance(base, sp.MatrixBase) and base.shape[1] == 1 and s.lstrip("-").isdigit() and -base.shape[0] <= int(s) < base.shape[0]:
+                return base[int(s), 0]
+            if isinstance(base, sp.MatrixBase) and base.shape[1] == 1:
+                # index held by an unrolled loop variable
+                iv = self.of(node.slice)
+                if iv is not None and getattr(iv, "is_Integer", False) and -base.shape[0] <= int(iv) < base.shape[0]:
+                    return base[int(iv), 0]
+            if s in ("0", ":", "...", "0,0") and not isinstance(base, sp.MatrixBase) and (not has_array(base, self.table) or s in (":", "...")):
+                return base
+            if not isinstance(base, sp.MatrixBase):
+                # a part of an array-valued expression: uninterpreted function of the expression and the subscript
+                return SUB(base, sp.Symbol(s))
             return None
         if isinstance(node, ast.UnaryOp):
             a = self.of(node.operand)
@@ -608,8 +660,18 @@ class SymX(Domain):
             is_module_fn = isinstance(node.func, ast.Attribute) and isinstance(root, ast.Name) and root.id in mod.imports and root.id not in st.env
             is_method = isinstance(node.func, ast.Attribute) and not is_module_fn
             # repository helper: the value carries the expression of its return
-            if not is_module_fn and not is_method and v.dom.get(self.name) is not None:
-                return v.dom[self.name]
+            fi = getattr(it, "last_inlined", {}).get(id(node))
+            dv = v.dom.get(self.name)
+            opaque_ret = dv is None or (isinstance(dv, sp.Symbol) and dv.name.startswith("opq:")) or (fi is not None and fi.name in KERNELS)
+            if not is_module_fn and not is_method and dv is not None and not (opaque_ret and fi is not None):
+                return dv
+            if fi is not None and "." not in fi.qual and not node.keywords and ads and all(a_ is not None for a_ in ads):
+                ads = [sp.ImmutableMatrix(a_) if isinstance(a_, sp.MatrixBase) else a_ for a_ in ads]
+                # a module-level repository helper whose body is outside the fragment: an
+                # uninterpreted function of its arguments (helpers are pure functions of them)
+                return sp.Function("H_" + fi.name)(*ads)
+            if not is_module_fn and not is_method and dv is not None:
+                return dv
             if is_method:
                 base = self.of(node.func.value)
                 if base is None:
@@ -639,6 +701,14 @@ class SymX(Domain):
                     if ops[i_] is None and isinstance(a_, ast.Name):
                         # an operand assembled element-wise (e.g. a stack of small matrices): opaque array
                         ops[i_] = self.table.get("opq:obj:%s" % a_.id, array=True, positive=False)
+                if "->" in spec and ops[0] is not None and ops[1] is not None and (isinstance(ops[0], sp.MatrixBase) != isinstance(ops[1], sp.MatrixBase)):
+                    # broadcasting copy of a small constant vector along new axes: ones(...) x vector
+                    ins, outp = spec.split("->")
+                    parts = ins.split(",")
+                    o_, m_ = (ops[0], ops[1]) if isinstance(ops[1], sp.MatrixBase) else (ops[1], ops[0])
+                    if len(parts) == 2 and set(outp) == set(parts[0]) | set(parts[1]) and len(set(outp)) == len(outp) and o_ == 1 and ads[1] is not None and ads[2] is not None:
+                        return m_
+                    return None
                 if "->" in spec and ops[0] is not None and ops[1] is not None and not isinstance(ops[0], sp.MatrixBase) and not isinstance(ops[1], sp.MatrixBase):
                     ins, outp = spec.split("->")
                     parts = ins.split(",")
